@@ -93,6 +93,15 @@ theorem visible_iff_provided_graph (g : Graph) (k t : Nat) (v n : Name) :
     rw [mem_importsM, rename_eq_some]
     refine ⟨List.mem_map.mpr ⟨n, by simpa [flatten_eq] using hn, rfl⟩, by simpa [flatten_eq] using hr⟩
 
+/-- Non-vacuity of `visible_iff_provided_graph`: module 2 requires module 0 under a prefix with an `only-in`
+that renames, and module 1 plainly; module 0's private `p` and unlisted `y` are not visible. -/
+example :
+    let g : Graph :=
+      [⟨[['x'], ['y'], ['p']], [⟨['x'], false⟩, ⟨['y'], true⟩], [], []⟩,
+       ⟨[['x']], [⟨['x'], false⟩], [], []⟩,
+       ⟨[], [], [.prefixIn ['a', '.'] (.onlyIn (.path 0) [(['x'], some ['z'])]), .path 1], []⟩]
+    visible g 2 = [(['a', '.', 'z'], (0, ['x'])), (['x'], (1, ['x']))] := by decide
+
 /-- The binding refers to the provided definition it was generated from (`(%proto-hash-get% … 'n)`). -/
 theorem import_refers_to_provided {β : Type} (r : Req) (ex : List (Name × β)) (v n : Name) (b : β) :
     (v, n, b) ∈ r.importsM ex → (n, b) ∈ ex := fun h => ((mem_importsM r ex v n b).mp h).1
@@ -107,6 +116,14 @@ theorem only_in_missing_is_error {β : Type} (s : Spec) (ex : List (Name × β))
   · exact hne he
   · rw [lookupLast_none _ _ hn] at ha
     exact absurd ha (by simp)
+
+/-- Non-vacuity of `only_in_missing_is_error`: `(only-in "m0" x)` with `m0` providing `x`, `y`: `y` is not
+bound under any name (while `x` is). -/
+example : ∀ v b, (v, ['y'], b) ∉ (Spec.onlyIn (.path 0) [(['x'], none)]).flatten.importsM [(['x'], 1), (['y'], 2)] :=
+  only_in_missing_is_error _ _ _ (by decide) (by decide)
+
+example : (Spec.onlyIn (.path 0) [(['x'], none)]).flatten.importsM [(['x'], 1), (['y'], 2)]
+    = [(['x'], ['x'], 1)] := by decide
 
 /-- S: an `only-in` that names an identifier the inner spec does not offer is ill-formed … -/
 theorem only_in_unknown_is_error_S {β : Type} (ex : Nat → List (Name × β)) (s : Spec)
@@ -130,6 +147,19 @@ theorem flat_agrees_with_composition {β : Type} (ex : Nat → List (Name × β)
     (hc : s.canonical (fun m => (ex m).map (·.1)) = true) (v : Name) (b : β) :
     (∃ n, (v, n, b) ∈ s.flatten.importsM (ex s.target)) ↔ ∃ l, s.importsS ex = some l ∧ (v, b) ∈ l :=
   flat_eq_compositional ex s hc v b
+
+/-- Non-vacuity of `flat_agrees_with_composition`: two prefixes around an `only-in` with a renaming is in the
+fragment; both sides bind `b-q.x ↦ 1` and `b-q.ff ↦ 3`. -/
+example :
+    let ex : Nat → List (Name × Nat) := fun _ => [(['x'], 1), (['y'], 2), (['f'], 3)]
+    let s : Spec := .prefixIn ['b', '-'] (.prefixIn ['q', '.'] (.onlyIn (.path 0) [(['x'], none), (['f'], some ['f', 'f'])]))
+    s.canonical (fun m => (ex m).map (·.1)) = true ∧
+    s.importsS ex = some [(['b', '-', 'q', '.', 'x'], 1), (['b', '-', 'q', '.', 'f', 'f'], 3)] := by decide
+
+example : ∃ l, (Spec.prefixIn ['q', '.'] (.onlyIn (.path 0) [(['f'], some ['g'])])).importsS
+      (fun _ => [(['x'], 1), (['f'], 3)]) = some l ∧ ((['q', '.', 'g'], 3) ∈ l) :=
+  (flat_agrees_with_composition (fun _ => [(['x'], 1), (['f'], 3)]) _ (by decide) ['q', '.', 'g'] 3).mp
+    ⟨['f'], by decide⟩
 
 /-- Outside that fragment they differ (open finding K14c).  With `m0` providing `x`, `y`:
 `(only-in (prefix-in a. "m0") x)` binds `a.x` (S: ill-formed), `(only-in "m0")` binds everything
@@ -222,6 +252,45 @@ theorem example_diamond :
     g.wf = true ∧ (runRequestsI true g {} reqs).inst = [0, 1, 2, 3] := by
   decide
 
+/-- The diamond of `example_diamond`, named, for the non-vacuity examples below. -/
+def diamond : Graph :=
+  let m := fun (reqs : List Spec) => (⟨[['x']], [⟨['x'], false⟩], reqs, []⟩ : Module)
+  [m [], m [.path 0], m [.prefixIn ['a', '.'] (.path 0)], m [.path 1, .path 2]]
+
+def diamondReqs : List Request :=
+  [{ specs := [.path 2], mode := .failBuild }, { specs := [.path 3] },
+   { specs := [.path 1, .path 0], mode := .failCompile }, { specs := [.path 0, .path 2] },
+   { specs := [.path 3, .path 3], mode := .failRuntime }]
+
+theorem diamondReqs_wf : ∀ r ∈ diamondReqs, r.wfIn diamond := by
+  intro r hr
+  simp only [diamondReqs, List.mem_cons, List.mem_nil_iff, or_false] at hr
+  rcases hr with rfl | rfl | rfl | rfl | rfl <;> (intro s hs; revert s hs; decide)
+
+/-- Non-vacuity of `instantiated_once`, `instantiated_only_if_needed`, `good_request_runs`: all hypotheses hold
+on the diamond with a sequence of five requests of all four modes; the second request (mode `ok`) needs all
+four modules. -/
+example : (∀ k, (runRequestsI true diamond {} diamondReqs).count k ≤ 1) ∧
+    (runRequestsI true diamond {} diamondReqs).count 0 = 1 ∧
+    (runRequestsI true diamond {} diamondReqs).count 3 = 1 := by
+  obtain ⟨h1, h2⟩ := instantiated_once diamond (by decide) diamondReqs diamondReqs_wf
+  refine ⟨h1, ?_, ?_⟩
+  · exact h2 { specs := [.path 3] } (by simp [diamondReqs]) (Or.inl rfl) 0 (by decide)
+  · exact h2 { specs := [.path 3] } (by simp [diamondReqs]) (Or.inl rfl) 3 (by decide)
+
+example : ∃ r ∈ diamondReqs, (r.mode = .ok ∨ r.mode = .failRuntime) ∧ 2 ∈ r.needs diamond :=
+  instantiated_only_if_needed true diamond diamondReqs 2 (by decide)
+
+example : (evalRequestI true diamond (runRequestsI true diamond {} diamondReqs) [.path 3, .path 1] .ok).2.1
+    = .ok :=
+  good_request_runs diamond (by decide) diamondReqs diamondReqs_wf { specs := [.path 3, .path 1] }
+    (by intro s hs; revert s hs; decide) rfl
+
+/-- Non-vacuity of the legacy statements: without a `failBuild` request the old roll-back instantiates exactly
+once as well. -/
+example : (runRequestsI false diamond {} [{ specs := [.path 1], mode := .failCompile }, { specs := [.path 3] }]).inst
+    = [0, 1, 2, 3] := by decide
+
 /-! ## 4. Isolation in the global table -/
 
 /-- **A module body defines only its own mangled names** (the code since 1587f6f5), so it changes
@@ -244,6 +313,30 @@ theorem module_isolation (g : Graph) (st st' : MState) (k : Nat) (fix : Fix)
     obtain ⟨n', e⟩ := moduleWrites_mangled k (g.mod k) imps _ hmem
     exact mangle_not_user_writable k n' s hs e.symm
 
+/-- Non-vacuity of `module_isolation`: module 1 defines its own `f` and `p` and imports module 0's
+`contract/out` `f` under a prefix, into a table that already holds module 0's `f`, `p` and a program's `q.f`:
+those three keys are unchanged (and module 1's own keys are new). -/
+def isoGraph : Graph :=
+  [⟨[['f'], ['p']], [⟨['f'], true⟩], [], []⟩, ⟨[['f'], ['p']], [⟨['f'], false⟩], [.prefixIn ['q', '.'] (.path 0)], []⟩]
+
+def isoState : Option MState :=
+  (runModule {} isoGraph {} 0).map fun st => { st with tbl := (['q', '.', 'f'], ⟨.top 0, ['q', '.', 'f'], false⟩) :: st.tbl }
+
+example : (isoState.bind fun st => (runModule {} isoGraph st 1).map fun st' =>
+      (st'.tbl.lookup (mangle 0 ['f']) == st.tbl.lookup (mangle 0 ['f']) &&
+       st'.tbl.lookup (mangle 0 ['p']) == st.tbl.lookup (mangle 0 ['p']) &&
+       (st.tbl.lookup (mangle 0 ['p'])).isSome &&
+       st'.tbl.lookup ['q', '.', 'f'] == st.tbl.lookup ['q', '.', 'f'] &&
+       (st.tbl.lookup ['q', '.', 'f']).isSome &&
+       (st'.tbl.lookup (mangle 1 ['q', '.', 'f'])).isSome && (st.tbl.lookup (mangle 1 ['q', '.', 'f'])).isNone))
+    = some true := by decide
+
+example (st st' : MState) (h : runModule {} isoGraph st 1 = some st') :
+    st'.tbl.lookup (mangle 0 ['p']) = st.tbl.lookup (mangle 0 ['p']) ∧
+    st'.tbl.lookup ['q', '.', 'f'] = st.tbl.lookup ['q', '.', 'f'] :=
+  ⟨(module_isolation isoGraph st st' 1 {} rfl h).1 0 ['p'] (by decide),
+   (module_isolation isoGraph st st' 1 {} rfl h).2 _ (by decide)⟩
+
 /-- **The requiring program's own definitions and imports do not touch any module's names**: binding
 source identifiers leaves every mangled key as it was. -/
 theorem program_isolation (tbl : List (Name × Val)) (binds : List (Name × Val))
@@ -264,6 +357,48 @@ theorem contract_at_boundary_only (g : Graph) (st st' : MState) (k : Nat) (fix :
         (p.contract = true → e.val.contracted = true)) :=
   ⟨runModule_own_defs fix g st st' k h, runModule_hash fix g st st' k h⟩
 
+/-- Non-vacuity of `program_isolation`: a program that defines `p` and imports `q.f` on top of module 0. -/
+example : ((isoState.map (·.tbl)).map fun tbl =>
+      ([(['p'], (⟨.top 1, ['p'], false⟩ : Val)), (['q', '.', 'f'], ⟨.mod 0, ['f'], true⟩)].foldl
+        (fun t b => b :: t) tbl).lookup (mangle 0 ['p']) == tbl.lookup (mangle 0 ['p']) &&
+      (tbl.lookup (mangle 0 ['p'])).isSome) = some true := by decide
+
+/-- **… and every provided definition of the module IS handed out, with the contract exactly when the provide
+form is `contract/out`** (`contract_at_boundary_only` alone would hold for an empty table): for every
+`provide` of a name the module defines, the module's table has the entry for it, bound to the module's own
+definition, contracted iff `contract/out`. -/
+theorem provided_def_exported (fix : Fix) (g : Graph) (st st' : MState) (k : Nat)
+    (h : runModule fix g st k = some st') (p : Provide) (hp : p ∈ (g.mod k).provs)
+    (hd : p.name ∈ (g.mod k).defs) :
+    ∃ hash, st'.hashes.lookup k = some hash ∧
+      (⟨p.name, ⟨.mod k, p.name, p.contract⟩, p.contract⟩ : Export) ∈ hash := by
+  unfold runModule at h
+  simp only at h
+  cases hi : mImports fix.compose st.hashes (g.mod k).reqs with
+  | none => simp [hi] at h
+  | some imps =>
+    simp only [hi, Option.some.injEq] at h
+    subst h
+    simp only
+    refine ⟨_, lookup_cons_self k _ _, ?_⟩
+    rw [List.mem_filterMap]
+    refine ⟨p, hp, ?_⟩
+    have hk : keyOf k (mGlobals fix.contractImports (g.mod k) imps) p.name = mangle k p.name := by
+      simp [keyOf, mGlobals, hd]
+    rw [hk]
+    have hl : ∀ tbl1 : List (Name × Val),
+        ((g.mod k).defs.foldl (fun t d => (mangle k d, (⟨.mod k, d, false⟩ : Val)) :: t) tbl1).lookup
+          (mangle k p.name) = some ⟨.mod k, p.name, false⟩ := by
+      intro tbl1
+      apply lookup_foldl_cons_mem (mangle k p.name) (fun d' => (mangle k d', (⟨.mod k, d', false⟩ : Val)))
+      · exact ⟨p.name, hd, rfl⟩
+      · intro d' _ e
+        have := (mangle_inj e).2
+        subst this
+        rfl
+    rw [hl]
+    simp
+
 /-- Non-vacuity: `m0` provides `f` through `contract/out`; its own `f` is bare, the exported one is not. -/
 example :
     let g : Graph := [⟨[['f']], [⟨['f'], true⟩], [], []⟩]
@@ -280,5 +415,40 @@ theorem module_isolation_legacy_fails :
         (st.tbl.lookup ['q', '.', 'f']).isSome
     run { contractImports := false } = some true ∧ run {} = some false := by
   decide
+
+/-! ## Clauses of the property not carried by a theorem
+
+* "Code that requires a module can refer to exactly the names the module provides … and to nothing else of it":
+  `visible_iff_provided(_graph)` characterises the BOUND names of the flattened require; "nothing else" rests
+  on `mangle_not_user_writable`, which is about identifiers the reader produces from plain text — false for
+  `|##mm…|`-escaped identifiers (K14d).  When two requires (or a require and a define) bind the same name, which
+  one wins (`visible`: later entries shadow) is not a theorem.
+* "after any only-in / prefix-in / renaming modifiers … all combinations of require modifiers": the code FLATTENS
+  nested modifiers; the specification composes them.  They agree on the documented fragment
+  (`flat_agrees_with_composition`) and differ outside it (`flat_differs_from_composition`, open finding K14c).
+  `rename-in` / `except-in`-style forms other than the `(from to)` entries of `only-in`, `for-syntax` requires and
+  provided MACROS are not modelled.
+* "private definitions of different modules, and of the requiring program, never interfere": theorems about the
+  KEYS written (`module_isolation`, `program_isolation`, `privates_disjoint`).  That every READ inside a module
+  body resolves to the module's own definition or its import — the whole-request agreement of the flat machine
+  `evalRequestM` / `resolveView` with the per-module environments `evalRequestS` / `sView`, including the
+  re-export / leak cases the model reports as `undetermined` — is NOT a theorem; it is compared by the driver on
+  generated graphs and against the real engine.
+* "A module's body is evaluated exactly once per engine": `instantiated_once` is about the instantiation machine
+  `runRequestsI`, in which whether a request fails is an INPUT (`Mode`); that the real compile / build / run
+  failures are those modes, that files do not change on disk between requests, and requests whose module bodies
+  refer to unbound names (`extraFree`, decided by the flat machine) are outside it.  Module bodies whose
+  evaluation itself raises an error half-way are not modelled (`failRuntime` = the LAST expression of the main
+  program fails).
+* "values attached with contracts are checked at the module boundary only": `contract_at_boundary_only` /
+  `provided_def_exported` track one flag (`contracted`) through definition, export and import; the checking
+  itself (`contracts.scm`: blame, higher-order wrapping, that a call from inside the module is not checked) is not
+  modelled.
+* Unused-import pruning (`remove_unused_globals_with_prefix`): modelled in `modRefs`; that it never drops a used
+  import is implicit in `good_request_runs` (no missing `__module-…` table) only for the uses the model knows
+  (`views`, provides).
+* Cyclic requires (rejected by the code), `(require-builtin …)`, dylibs, cogs search paths.
+`only_in_unknown_ignored_M`, `flat_differs_from_composition`, `instantiated_once_legacy_fails`,
+`module_isolation_legacy_fails`, `example_diamond` are concrete witnesses / tests (by `decide`). -/
 
 end SteelVerif.C14
